@@ -58,6 +58,9 @@ def _strategy(kinds):
                 "fs_as_list": draw(st.booleans()),
                 # dt = sim.compute_stable_timestep(frac) right before each step (the idiom of every example) or the harness' own
                 "dt_from_sim": draw(st.booleans()),
+                # overall power-of-two factor of the transported field / vorticity (weak blobs ... strong vortices): absolute
+                # thresholds hidden in the code act differently at different amplitudes
+                "primary_scale_exp": draw(st.one_of(st.just(0), st.just(0), st.integers(-24, 16))),
             }
 
         return case()
@@ -95,7 +98,7 @@ def _body(case, ctx):
     dx = float(sim.dx)
     is_ns = kind.startswith("ns")
     prim = simcfg.primary_field_of(sim, cfg)
-    pf = gen.build_vector_field(case["primary"], shape, real_t)
+    pf = gen.build_vector_field(case["primary"], shape, real_t) * real_t(2.0 ** int(case.get("primary_scale_exp", 0)))
     prim[...] = pf[0] if prim.ndim == dim else pf
     sim.velocity_field[...] = gen.build_vector_field(case["velocity"], shape, real_t)
     if is_ns and cfg["with_forcing"]:
@@ -140,6 +143,8 @@ def _body(case, ctx):
         if sim.time != t0 + dt:
             raise Violation(f"simulator time {sim.time!r} != t0 + dt = {t0 + dt!r} {desc}")
     labels = simcfg.config_labels(cfg) + [f"steps{case['steps']}", "dt_from_simulator" if case.get("dt_from_sim") else "dt_from_harness"]
+    if case.get("primary_scale_exp", 0):
+        labels.append("amplitude_small" if case["primary_scale_exp"] < 0 else "amplitude_large")
     ctx.note(nontrivial=nontrivial, labels=labels)
 
 
